@@ -124,3 +124,12 @@ def bound_method(obj, name):
 
 def at_entry(x):
     return x
+
+
+def seq_concat(a, b):
+    return tuple(a) + tuple(b)
+
+
+def seq_same(a, b):
+    a, b = tuple(a), tuple(b)
+    return len(a) == len(b) and all(x is y for x, y in zip(a, b))
